@@ -65,7 +65,7 @@ Proof. intros v m; destruct m; try congruence; by_variant v. Qed.
 (* 7.6: --list --json records a fingerprint; the task never ran and is skipped *)
 Definition h_76 : list event := [(10, Invoke ListJson 0 AllOk); (12, Invoke Run 0 AllOk)]%N.
 Lemma listjson_refuted : forall v m,
-  v_listjson_dry v = false -> v_safe v = false -> m <> NoMethod ->
+  v_listjson_dry v = false -> m <> NoMethod ->
   w04 v [w_task m] h_76 = false /\ w12 v [w_task m] h_76 = false.
 Proof. intros v m; destruct m; try congruence; by_variant v. Qed.
 
@@ -112,7 +112,7 @@ Proof. intro v; by_variant v. Qed.
 Definition h_force : list event :=
   [(10, Invoke Force 0 AllOk); (12, Invoke Run 0 AllOk)]%N.
 Lemma force_not_recorded_refuted : forall v m,
-  v_safe v = false -> m <> NoMethod ->
+  v_force_records v = false -> m <> NoMethod ->
   w05 v [w_task m] h_force = false.
 Proof. intros v m; destruct m; try congruence; by_variant v. Qed.
 
@@ -132,3 +132,11 @@ Definition h_keys : list event := [(10, Invoke Run 0 AllOk); (12, Invoke Run 1 A
 Lemma key_collision_refuted : forall v m, m <> NoMethod ->
   w04 v [w_named "gen.x" m; w_named "gen-x" m] h_keys = false.
 Proof. intros v m; destruct m; try congruence; by_variant v. Qed.
+
+(* ---- used by Properties ---- *)
+Lemma method_cs_ne : Checksum <> NoMethod.
+Proof. discriminate. Qed.
+
+Definition h_example : list event :=
+  [(10, Invoke Run 0 (FailAt 1)); (12, Invoke Run 0 AllOk); (14, Invoke Run 0 AllOk);
+   (16, Write "src/a.txt" "A1"); (18, Invoke Run 0 (KilledAt 1)); (20, Invoke Run 0 AllOk)]%N.
